@@ -564,16 +564,22 @@ func (s *Server) FastInvoke(w http.ResponseWriter, i *interop.Invoke, direct boo
 			// These are on the handleInvokeError path, may occur during timeout resets,
 			// failure reset (proc exit). It is expected to be non-nil on all invoke failures.
 			vhook.At("fastinvoke.failure")
+			if s.GetCurrentInvokeID() != invokeID {
+				// The reservation this invoke belonged to was released by a reset in the meantime: nobody is
+				// waiting for its outcome, and it must not leak into the next invocation.
+				log.Warnf("Dropping outcome of invoke %s: its reservation is gone", invokeID)
+				return
+			}
 			if invokeFailure.DefaultErrorResponse == nil {
 				log.Panicf("default error response was nil for invoke failure, %v", invokeFailure)
 			}
 
 			if cachedInitError := s.getCachedInitErrorResponse(); cachedInitError != nil {
 				// /init/error was called
-				s.trySendDefaultErrorResponse(cachedInitError)
+				s.trySendDefaultErrorResponse(invokeID, cachedInitError)
 			} else {
 				// sent only if /error and /response not called
-				s.trySendDefaultErrorResponse(invokeFailure.DefaultErrorResponse)
+				s.trySendDefaultErrorResponse(invokeID, invokeFailure.DefaultErrorResponse)
 			}
 			doneFail := doneFailFromInvokeFailure(invokeFailure)
 			s.InvokeDoneChan <- DoneWithState{
@@ -609,8 +615,13 @@ func (s *Server) getCachedInitErrorResponse() *interop.ErrorInvokeResponse {
 	return s.cachedInitErrorResponse
 }
 
-func (s *Server) trySendDefaultErrorResponse(resp *interop.ErrorInvokeResponse) {
-	if err := s.SendErrorResponse(s.GetCurrentInvokeID(), resp); err != nil {
+func (s *Server) trySendDefaultErrorResponse(invokeID string, resp *interop.ErrorInvokeResponse) {
+	if err := s.SendErrorResponse(invokeID, resp); err != nil {
+		if err == interop.ErrInvalidInvokeID {
+			// a reset released the reservation while the failure was being handled
+			log.Warnf("Not sending default error response for %s: its reservation is gone", invokeID)
+			return
+		}
 		if err != interop.ErrResponseSent {
 			log.Panicf("Failed to send default error response: %s", err)
 		}
